@@ -7,6 +7,7 @@ from .. import nf
 from .. import terms as T
 from ..harness import API, BLOCK, CHOL, DENSE, ISO, A, PrimV, Rec, Session, call, method
 from ..model import AnalysisError
+from ..interp import RaiseSignal
 
 EXPLANATION = (
     "Units-of-measure + symbolic-shape type inference (domain A) of the conditional algebra of all three factorisations: "
@@ -678,6 +679,34 @@ def reversal_kernel_rules(chk, S):
                         form = "joseph"
     r5.require(form is not None, "revert_conditional backward noise factor (exact solve, regular observed factor)", f"R_XY{' stacked with the residual R12 - R_Y G^T' if form == 'joseph' else ''}: Gram = Cov(x - G y)",
                f"backward noise factor = {T.show(rxy, 6)}: neither the trailing block of the joint factor nor that block stacked with the residual R12 - R_Y G^T", where_of_term(rxy, where))
+    # every factorisation hands the caller's solve to the kernel (not a fixed one)
+    nin_, nout_ = AD.dim("n_in"), AD.dim("n_out")
+    for fam in FAMS:
+        it2 = S.interp()
+        env2 = AD.AEnv()
+        it2.ndim_oracle = env2.rank_of
+        AD.install_vmap(it2, env2)
+        seen = []
+
+        def khook(itp, fn, a, kw, site, _seen=seen):
+            _seen.append(kw.get("solve_triu", a[3] if len(a) > 3 else None))
+            t = T.mk("revert_conditional", tuple(kw.get(k_) for k_ in ("R_X_F", "R_X", "R_YX")) if kw.get("R_X_F") is not None else tuple(a[:3]))
+            return T.mk("getitem", (t, 0)), (T.mk("getitem", (t, 1)), T.mk("getitem", (t, 2)))
+
+        it2.method_hooks[KERNEL] = khook
+        mine = A("callers_solve")
+        cname = fam.cond_cls.rsplit(".", 1)[1]
+        try:
+            cond = mk_cond(it2, env2, fam, "c", nin_, nout_, Ein, Lin, Lout, Eout)
+            call(it2, method(it2, cond, "revert"), mk_normal(it2, env2, fam, "rv", nin_, Ein), solve_triu=mine)
+        except (AnalysisError, RaiseSignal) as e:
+            if not seen:
+                r5.unknown(f"{cname}.revert hands its solve to the kernel", f"not analysed: {e}", fam.module)
+                continue
+        S.absorb(it2)
+        r5.require(bool(seen) and all(x is mine for x in seen), f"{cname}.revert hands its solve to the kernel", "revert_conditional(..., solve_triu=<the caller's solve>)",
+                   f"the kernel is called with solve_triu = {[T.show(x, 2) if isinstance(x, T.Term) else repr(x) for x in seen]}, not with the solve passed to revert: "
+                   "a caller that asks for a least-squares solve (singular initial update) gets an exact triangular solve and NaN", fam.module, {"factorisation": fam.name})
     # call sites that hand a least-squares solve to the kernel
     sites = []
     for m in S.p.modules.values():
